@@ -40,11 +40,11 @@ T = {
          "No store to observable non-fresh state in the serialisation cone; no set iteration order flows into output; the sorted flag reaches every nested sorter; items are emitted in canonical (sorted) or insertion order with values and subcomponents in insertion order, BEGIN/END balanced and properly nested.",
          "Observable state = attributes/items read by the to_ical cone or any __eq__; byte identity as such follows from these but floats/locale are not examined; trees <= 5 nodes.", "16/C10"),
  "C11": ("other", "finite abstract interpretation over tz-kinds (naive/utc/zoned, UTC-alias zone) of the TZID producers under both provider models; interpretation of TZP.localize_utc/localize on provider-level contracts; parse-loop probe for TZID forwarding; ownership of parameters",
-         "UTC values get Z and no TZID, zoned values (incl. aliases of UTC) their own TZID and no Z, naive neither, in all producers; wall-clock fields are formatted without conversion; RFC UTC-only properties are forced to UTC; the TZID is handed to the decoder of every value of a line exactly for the names that admit it.",
+         "UTC values get Z and no TZID, zoned values (incl. aliases of UTC) their own TZID and no Z, naive neither, in all producers; every field the DATE-TIME writer formats is read from a value with the stored value's kind, zone and instant (interpreted on position markers); RFC UTC-only properties are forced to UTC; the TZID is handed to the decoder of every value of a line exactly for the names that admit it.",
          "Offsets near transitions, tz database content and provider agreement are runtime facts and are not decided; tzid_from_dt by contract.", "15.4/C11"),
- "C12": ("other", "global read/write effect analysis across parses; def-use of TZOFFSETFROM/TZOFFSETTO into onset and offset; sibling interface completeness; interpretation of the VTIMEZONE caching path on a stub provider",
-         "No process-global state written by one parse is read by another except the listed known finding; UTC onsets are computed as local onset minus a TZOFFSETFROM-derived value; both providers implement the full interface; a custom TZID is served by the zone built from the calendar's own VTIMEZONE.",
-         "Onset arithmetic at every instant and the numeric transition lists of the dateutil/pytz conversions are not decided (seeded change C12-c is a documented miss); K4 (process-wide first-wins VTIMEZONE cache) is a known finding.", "16/C12"),
+ "C12": ("other", "abstract interpretation (own interpreter over the repo ASTs) of Timezone.get_transitions and PYTZ.create_timezone on abstract VTIMEZONEs - symbolic local onsets as linear terms, concrete whole-minute offsets, DTSTART/RDATE/RRULE onsets, dateutil by contract - against an RFC 5545 3.6.5 oracle; global read/write effect analysis across parses; sibling interface completeness; interpretation of the VTIMEZONE caching path on a stub provider",
+         "For 11 abstract VTIMEZONE shapes: one transition per distinct onset, ordered by local onset; UTC onset = local onset minus TZOFFSETFROM (as a symbolic term); offset in force = TZOFFSETTO; DST part from the nearest STANDARD observance; name = TZNAME; RRULE expanded in the TZOFFSETFROM offset; the pytz zone class carries exactly these transitions. No process-global state written by one parse is read by another except the listed known finding; both providers implement the full interface; a custom TZID is served by the zone built from the calendar's own VTIMEZONE.",
+         "What dateutil/pytz/zoneinfo report at each instant from the transitions they are given, dateutil's expansion of an RRULE, the zoneinfo provider's path through dateutil.tz.tzical, second-granular offsets and generated names for observances without TZNAME are not decided; K4 (process-wide first-wins VTIMEZONE cache) is a known finding.", "19.2"),
  "C14": ("other", "abstract evaluation of Alarms.times / Alarm.triggers and the manual Alarms() paths in linear normal form over symbolic start/end/trigger/duration, under the zoneinfo and the pytz provider model; symbolic trip count where the loop has that shape",
          "For every alarm shape (incl. zero-length triggers, alarms added after the component) the computed times are anchor + TRIGGER + k*DURATION with k = 0..REPEAT exactly when DURATION is present, the anchor is start/end per RELATED, absolute triggers ignore the component, only the documented errors occur, and pytz wall clocks are not re-read after arithmetic.",
          "REPEAT in 0..2 (3 thorough) concretely, symbolically when the repeat loop is a range loop; date vs date-time arithmetic values are not decided.", "16/C14"),
